@@ -296,18 +296,25 @@ theorem applyOps_noByte (b : UInt8) (hb : b.toNat < 48 ∨ 57 < b.toNat) (stamp 
       intro hc
       simp only [applyOp]
       exact uniq_free b hb hsep w f (hf hc)
+    | mark =>
+      simp only [noByte] at h
+      apply applyOps_noByte b hb stamp w hst hsep r clean h
+      intro hc
+      simp only [applyOp]
+      exact hf hc
 
 /-- what `opsOK` says -/
 theorem opsOK_split (ops : List NameOp) (e : Bytes) (h : opsOK ops e = true) :
-    ∃ pre, ops = pre ++ [.append e, .unique] ∧ isExt e = true ∧ noSep false pre = true ∧ noNul false pre = true ∧
+    ∃ pre, ops = pre ++ [.append e, .unique, .mark] ∧ pre.all (· != .mark) = true ∧ isExt e = true ∧
+      noSep false pre = true ∧ noNul false pre = true ∧
       free 47 Gen.ConfigDir.uniqueSep ∧ free 0 Gen.ConfigDir.uniqueSep := by
   unfold opsOK at h
   split at h
   · rename_i e' pre hrev
     simp only [Bool.and_eq_true, beq_iff_eq, Bool.not_eq_true'] at h
-    obtain ⟨⟨⟨⟨⟨he, hx⟩, hs⟩, hn⟩, h47⟩, h0⟩ := h
+    obtain ⟨⟨⟨⟨⟨⟨hm, he⟩, hx⟩, hs⟩, hn⟩, h47⟩, h0⟩ := h
     subst he
-    refine ⟨pre.reverse, ?_, hx, hs, hn, free_of_contains h47, free_of_contains h0⟩
+    refine ⟨pre.reverse, ?_, by simpa using hm, hx, hs, hn, free_of_contains h47, free_of_contains h0⟩
     have := congrArg List.reverse hrev
     simpa using this
   · simp at h
@@ -358,8 +365,8 @@ theorem contains_false_of_free {b : UInt8} {f : Bytes} (h : free b f) : f.contai
 theorem fileName_ok (ops : List NameOp) (e : Bytes) (h : opsOK ops e = true) (stamp : Bytes) (w : List Bytes) (name : Bytes)
     (hs0 : free 0 stamp) (hs47 : free 47 stamp) :
     ext (fileName ops stamp w name) = e ∧ usable (fileName ops stamp w name) = true ∧ fileName ops stamp w name ∉ w := by
-  obtain ⟨pre, rfl, he, hsep, hnul, hu47, hu0⟩ := opsOK_split ops e h
-  have hfn : fileName (pre ++ [.append e, .unique]) stamp w name = uniq w (applyOps stamp w pre name ++ e) := by
+  obtain ⟨pre, rfl, _, he, hsep, hnul, hu47, hu0⟩ := opsOK_split ops e h
+  have hfn : fileName (pre ++ [.append e, .unique, .mark]) stamp w name = uniq w (applyOps stamp w pre name ++ e) := by
     simp [fileName, applyOps_append, applyOps, applyOp]
   rw [hfn]
   have hext := ext_uniq w (applyOps stamp w pre name) e he
@@ -392,6 +399,62 @@ theorem fileName_ok (ops : List NameOp) (e : Bytes) (h : opsOK ops e = true) (st
 
 
 
+
+/-! ### the in-use mark: taken on the final name (`opsOK`), the kept names are the written names -/
+
+/-- the item loop when the mark is taken on the final name: one list serves as `written` and `kept` -/
+def dumpLoopW {α : Type} (ops : List NameOp) (enc : α → Json) (nameOf : α → Bytes) (clock : Nat → Bytes) :
+    Nat → List α → Dir → List Bytes → Option (Dir × List Bytes)
+  | _, [], d, written => some (d, written)
+  | i, c :: r, d, written =>
+    let n := fileName ops (clock i) written (nameOf c)
+    if usable n then dumpLoopW ops enc nameOf clock (i + 1) r (write d n (.doc (enc c))) (n :: written) else none
+
+def marshalDynamicW {α : Type} (ops : List NameOp) (enc : α → Json) (nameOf : α → Bytes) (clock : Nat → Bytes)
+    (d : Dir) (cs : List α) : Option Dir :=
+  match dumpLoopW ops enc nameOf clock 0 cs d [] with
+  | none => none
+  | some (d', written) =>
+    let stale := (d.map (·.1)).filter (fun n => !written.contains n)
+    some (d'.filter (fun f => !stale.contains f.1))
+
+theorem markAt_last (stamp : Bytes) (w : List Bytes) : (pre : List NameOp) → pre.all (· != .mark) = true → (f : Bytes) →
+    markAt stamp w (pre ++ [.mark]) f = some (applyOps stamp w (pre ++ [.mark]) f)
+  | [], _, f => by simp [markAt, applyOps, applyOp]
+  | op :: r, h, f => by
+    simp only [List.all_cons, Bool.and_eq_true, bne_iff_ne] at h
+    have ih := markAt_last stamp w r h.2 (applyOp stamp w op f)
+    cases op with
+    | mark => exact absurd rfl h.1
+    | orStamp => simpa [markAt, applyOps] using ih
+    | truncate a b => simpa [markAt, applyOps] using ih
+    | replaceAll a b => simpa [markAt, applyOps] using ih
+    | append a => simpa [markAt, applyOps] using ih
+    | unique => simpa [markAt, applyOps] using ih
+
+theorem markAt_opsOK (ops : List NameOp) (e : Bytes) (h : opsOK ops e = true) (stamp : Bytes) (w : List Bytes) (f : Bytes) :
+    markAt stamp w ops f = some (fileName ops stamp w f) := by
+  obtain ⟨pre, rfl, hm, _⟩ := opsOK_split ops e h
+  have : pre ++ [NameOp.append e, .unique, .mark] = (pre ++ [.append e, .unique]) ++ [.mark] := by simp
+  rw [this]
+  exact markAt_last stamp w _ (by simp [hm]) f
+
+theorem dumpLoop_eq_W {α : Type} (ops : List NameOp) (e : Bytes) (h : opsOK ops e = true) (enc : α → Json)
+    (nameOf : α → Bytes) (clock : Nat → Bytes) : (cs : List α) → (i : Nat) → (d : Dir) → (w : List Bytes) →
+    dumpLoop ops enc nameOf clock i cs d w w = (dumpLoopW ops enc nameOf clock i cs d w).map (fun p => (p.1, p.2, p.2))
+  | [], _, _, _ => rfl
+  | c :: r, i, d, w => by
+    simp only [dumpLoop, dumpLoopW, markAt_opsOK ops e h]
+    split
+    · exact dumpLoop_eq_W ops e h enc nameOf clock r (i + 1) _ _
+    · rfl
+
+theorem marshalDynamic_eq_W {α : Type} (ops : List NameOp) (e : Bytes) (h : opsOK ops e = true) (enc : α → Json)
+    (nameOf : α → Bytes) (clock : Nat → Bytes) (d : Dir) (cs : List α) :
+    marshalDynamic ops enc nameOf clock d cs = marshalDynamicW ops enc nameOf clock d cs := by
+  unfold marshalDynamic marshalDynamicW
+  rw [dumpLoop_eq_W ops e h]
+  cases dumpLoopW ops enc nameOf clock 0 cs d [] <;> rfl
 
 /-- the names the item loop of `MarshalJSON` chooses, as a function of the items and the clock alone — the directory
 content is not consulted (newest first; `done` = the items written so far with their file names) -/
@@ -432,21 +495,21 @@ theorem dumpLoop_spec {α : Type} (ops : List NameOp) (e : Bytes) (hops : opsOK 
     (cs : List α) → (i : Nat) → (d : Dir) → (done : List (Bytes × α)) →
     (done.map (·.1)).Nodup → d.filter (fun f => (done.map (·.1)).contains f.1) = done.map (docOf enc) →
     ∃ (d' : Dir) (new : List (Bytes × α)),
-      dumpLoop ops enc nameOf clock i cs d (done.map (·.1)) = some (d', (new ++ done).map (·.1)) ∧
+      dumpLoopW ops enc nameOf clock i cs d (done.map (·.1)) = some (d', (new ++ done).map (·.1)) ∧
       ((new ++ done).map (·.1)).Nodup ∧
       d'.filter (fun f => ((new ++ done).map (·.1)).contains f.1) = (new ++ done).map (docOf enc) ∧
       (∀ p ∈ new, ext p.1 = e) ∧ new.map (·.2) = cs.reverse ∧
       (∀ f ∈ d', f.1 ∈ d.map (·.1) ∨ f.1 ∈ (new ++ done).map (·.1)) ∧
       new ++ done = planLoop ops nameOf clock i cs done
   | [], i, d, done, hnd, hd => by
-    refine ⟨d, [], by simp [dumpLoop], by simpa using hnd, by simpa using hd, by simp, by simp, ?_, by simp [planLoop]⟩
+    refine ⟨d, [], by simp [dumpLoopW], by simpa using hnd, by simpa using hd, by simp, by simp, ?_, by simp [planLoop]⟩
     intro f hf
     left
     exact List.mem_map_of_mem hf
   | c :: r, i, d, done, hnd, hd => by
     obtain ⟨hext, huse, hnew⟩ := fileName_ok ops e hops (clock i) (done.map (·.1)) (nameOf c)
       (hclock i).1 (hclock i).2
-    simp only [dumpLoop, huse, if_true]
+    simp only [dumpLoopW, huse, if_true]
     generalize hn : fileName ops (clock i) (done.map (·.1)) (nameOf c) = n at hext hnew
     have hd2 := filter_write enc d n (.doc (enc c)) (done.map (·.1)) done hnew hd
     obtain ⟨d', new, h1, h2, h3, h4, h5, h6, h7⟩ := dumpLoop_spec ops e hops enc nameOf clock hclock r (i + 1)
@@ -507,7 +570,8 @@ theorem marshalDynamic_spec {α : Type} (ops : List NameOp) (e : Bytes) (hops : 
     (by simp) (by simp)
   simp only [List.map_nil, List.append_nil] at h1 h2 h3 h6 h7
   refine ⟨new, ?_, h2, h4, h5, h7⟩
-  unfold marshalDynamic
+  rw [marshalDynamic_eq_W ops e hops]
+  unfold marshalDynamicW
   rw [h1]
   simp only
   rw [← h3]
@@ -617,6 +681,7 @@ theorem fileName_clock_indep (ops : List NameOp) (h : stampFirst ops = true) (s1
     | replaceAll a b => exact applyOps_noStamp s1 s2 w _ h _
     | append a => exact applyOps_noStamp s1 s2 w _ h _
     | unique => exact applyOps_noStamp s1 s2 w _ h _
+    | mark => exact applyOps_noStamp s1 s2 w _ h _
 
 theorem planLoop_clock_indep {α : Type} (ops : List NameOp) (h : stampFirst ops = true) (nameOf : α → Bytes)
     (k1 k2 : Nat → Bytes) : (cs : List α) → (∀ c ∈ cs, nameOf c ≠ []) → (i j : Nat) → (done : List (Bytes × α)) →
